@@ -1122,3 +1122,12 @@ def one_point_mix(c, q_hi=3, q_lo=1, lo_first=True, degree=2, itype="cell", use_
     g = R(f) * ((R(c.x[0]) + 1.0) if use_x else 1.0) * R(f)
     hi = g * R(v) * measure(itype, metadata={"quadrature_degree": q_hi})
     return lo + hi if lo_first else hi + lo
+
+
+@builder
+def two_forms(c, degree=1):
+    V = c.V("Lagrange", degree)
+    u, v = TrialFunction(V), TestFunction(V)
+    f = Coefficient(V)
+    k = Constant(c.mesh)
+    return [k * inner(grad(u), grad(v)) * dx + f * inner(u, v) * dx, exp(0.2 * f) * inner(f, v) * dx]
